@@ -1,20 +1,30 @@
 """C11  Fitted curves and surfaces meet interpolation and least-squares conditions."""
 import math
+import sys
 from fractions import Fraction as F
 from core import Case, q, qs, qpts, fr, show_list, show_pts, show_pts2
 import gen as G
 import shapes as S
 
 PID = 'C11'
-FLOAT_KINDS = {'icurve', 'isurf', 'acurve'}      # float-mode companion (core.float_companion)
+FLOAT_KINDS = {'icurve', 'isurf', 'acurve', 'asurf'}      # float-mode companion (core.float_companion)
 FLOAT_TOL = 1e-6
+# two least-squares passes on doubles (chord lengths) give exact rationals with more than 4300 digits
+if hasattr(sys, 'set_int_max_str_digits'):
+    sys.set_int_max_str_digits(0)
 STATS = G.STATS
 PARTIAL = [
     "non-singularity of the collocation matrix / of N^T N (Schoenberg-Whitney / total positivity) is a hypothesis: the theorems say 'whenever lu_solve returns'; the harness checks that it does return on every generated data set",
     "least squares: proved for the interior data points k = 1..nd-2 (the objective of The NURBS Book Eq. 9.63) and for data with positive chord lengths (approximateCurve_least_squares); for arbitrary chord lengths only the form with N_j,p as computed by basis_function_one (approximateCurve_minimises) is proved",
     "the averaged knot vector of the interpolation is proved non-decreasing under invp*p*u_(n-2) <= 1 (holds for invp = 1/p exactly; invp is the double 1.0/p)",
     "chord lengths and their square roots are doubles computed by math.sqrt: passed to the model as inputs (exact dyadic values)",
-    "approximate_surface is not modelled: checked by the oracle only (corner interpolation)",
+    "approximate_surface: modelled (approximateSurface / lsqPass, correspondence 'asurf'); proved: corner control points = "
+    "corner data points, evaluated corners S(0|1,0|1) = corner data (unconditionally for positive chord lengths), every "
+    "pass solves its normal equations and minimises the squared residual of ITS line (N as computed by basis_function_one). "
+    "Not proved (and not true of A9.7): a least-squares statement for the surface as a whole; the evaluated-curve form of "
+    "the per-line minimisation (through basisFunOne = Cox-de Boor, as done for approximate_curve) is not restated for the passes",
+    "approximate_curve / approximate_surface raise IndexError for 2 control points in a direction (ctrlpts_size = 2, degree 1: "
+    "matrix_multiply on the empty transposed matrix); the driver answers ERR there, the generators ask for >= 3 control points",
 ]
 ASSUMPTIONS = ["int(j * d) in compute_knot_vector2 is evaluated exactly here; in floating point j*d may round across an integer"]
 
@@ -86,11 +96,23 @@ def gen(rng, tier):
                 p2, nc2 = rng.choice(alts)
                 line2 = "fit.acurve %d %s %s %d" % (p2, show_pts(pts), show_list(cds), nc2)
                 out.append(Case('acurve', line2, dict(p=p2, pts=pts, cen=cen, nc=nc2), tags=('same-data-again',)))
-    for _ in range(6 if tier == 'quick' else 60):
-        su, sv = rng.randint(5, 8), rng.randint(5, 8)
-        pu, pv = rng.randint(1, 3), rng.randint(1, 3)
-        pts = [[F(u), F(v), F(rng.randint(-12, 12), 4)] for u in range(su) for v in range(sv)]
-        out.append(Case('asurf', None, dict(pu=pu, pv=pv, su=su, sv=sv, pts=pts, cen=rng.random() < .5)))
+    for _ in range(14 if tier == 'quick' else 120):
+        su, sv = rng.randint(4, 8), rng.randint(4, 8)
+        if su == sv:
+            sv = sv + 1 if sv < 8 else sv - 1
+        pu, pv = rng.randint(1, min(3, su - 2)), rng.randint(1, min(3, sv - 2))
+        pts = [[F(u) + F(rng.randint(-2, 2), 8), F(v) + F(rng.randint(-2, 2), 8), F(rng.randint(-12, 12), 4)] for u in range(su) for v in range(sv)]
+        cen = rng.random() < .5
+        # default ctrlpts_size = size - 1, or explicit smaller numbers of control points (>= degree + 1)
+        if rng.random() < .4:
+            ncu, ncv, dflt = su - 1, sv - 1, True
+        else:
+            ncu, ncv, dflt = rng.randint(max(pu + 1, 3), su - 1), rng.randint(max(pv + 1, 3), sv - 1), False
+        G.count('asurf_ncp', (ncu, ncv)); G.count('asurf_default', dflt)
+        cu = [_cds([pts[v + sv * u] for u in range(su)], cen) for v in range(sv)]
+        cv = [_cds([pts[v + sv * u] for v in range(sv)], cen) for u in range(su)]
+        line = "fit.asurf %d %d %d %d %s %s %s %d %d" % (pu, pv, su, sv, show_pts(pts), show_pts(cu), show_pts(cv), ncu, ncv)
+        out.append(Case('asurf', line, dict(pu=pu, pv=pv, su=su, sv=sv, pts=pts, cen=cen, ncu=ncu, ncv=ncv, dflt=dflt)))
     return out
 
 
@@ -103,12 +125,15 @@ def _fit(c):
         return fitting.interpolate_surface(qpts(d['pts']), d['su'], d['sv'], d['pu'], d['pv'], centripetal=d['cen'])
     if c.kind == 'acurve':
         return fitting.approximate_curve(qpts(d['pts']), d['p'], centripetal=d['cen'], ctrlpts_size=d['nc'])
-    return fitting.approximate_surface(qpts(d['pts']), d['su'], d['sv'], d['pu'], d['pv'], centripetal=d['cen'])
+    if d.get('dflt', True):
+        return fitting.approximate_surface(qpts(d['pts']), d['su'], d['sv'], d['pu'], d['pv'], centripetal=d['cen'])
+    return fitting.approximate_surface(qpts(d['pts']), d['su'], d['sv'], d['pu'], d['pv'], centripetal=d['cen'],
+                                       ctrlpts_size_u=d['ncu'], ctrlpts_size_v=d['ncv'])
 
 
 def impl(c):
     o = _fit(c)
-    if c.kind == 'isurf':
+    if c.kind in ('isurf', 'asurf'):
         return "%s %s %s" % (show_list(o.knotvector_u), show_list(o.knotvector_v), show_pts(o.ctrlpts))
     return "%s %s" % (show_list(o.knotvector), show_pts(o.ctrlpts))
 
@@ -169,5 +194,33 @@ def oracle(c):
             got = o.evaluate_single((q(u), q(v)))
             if list(got) != pts[idx]:
                 return "approximate_surface does not interpolate corner (%d,%d)" % (u, v)
+        # the four boundary control polygons are least-squares fits of the four boundary data lines
+        # (A9.7: the boundary rows of the intermediate net are data rows; the boundary columns are fitted
+        # from the boundary data columns): residual orthogonal to every interior basis function
+        fq = lambda x: x.q if hasattr(x, 'q') else F(x)
+        ncu, ncv = o.ctrlpts_size_u, o.ctrlpts_size_v
+        if (ncu, ncv) != (d['ncu'], d['ncv']):
+            return "approximate_surface returned %dx%d control points, requested %dx%d" % (ncu, ncv, d['ncu'], d['ncv'])
+        cp = [[fq(x) for x in pt] for pt in o.ctrlpts]
+        uk, vl = fitting.compute_params_surface(qpts(pts), su, sv, d['cen'])
+        uk, vl = [fq(x) for x in uk], [fq(x) for x in vl]
+        kvu, kvv = [fq(x) for x in o.knotvector_u], [fq(x) for x in o.knotvector_v]
+        lines = [
+            ('u=0', d['pv'], kvv, vl, [pts[v] for v in range(sv)], [cp[v] for v in range(ncv)]),
+            ('u=1', d['pv'], kvv, vl, [pts[v + sv * (su - 1)] for v in range(sv)], [cp[v + ncv * (ncu - 1)] for v in range(ncv)]),
+            ('v=0', d['pu'], kvu, uk, [pts[sv * u] for u in range(su)], [cp[ncv * u] for u in range(ncu)]),
+            ('v=1', d['pu'], kvu, uk, [pts[sv - 1 + sv * u] for u in range(su)], [cp[ncv - 1 + ncv * u] for u in range(ncu)]),
+        ]
+        for name, p, kv, par, Q, P in lines:
+            last = kv[-1]
+            for i in range(1, len(P) - 1):
+                acc = [F(0)] * len(Q[0])
+                for k in range(1, len(Q) - 1):
+                    Ni = G.cox_de_boor(kv, p, i, par[k], last)
+                    if Ni:
+                        ck = S.eval_ref(dict(kind='curve', rat=False, p=p, kv=kv, n=len(P), P=P), [par[k]])
+                        acc = [a + Ni * (qk - x) for a, qk, x in zip(acc, Q[k], ck)]
+                if any(a != 0 for a in acc):
+                    return "approximate_surface: boundary polygon %s is not the least-squares fit of the boundary data line (residual not orthogonal to basis function %d)" % (name, i)
         return None
     return None
